@@ -79,7 +79,9 @@ class Selection(object):
             for p in paths:
                 m = re.match(r"^(.*):(\d+)$", p)
                 fn, ln = (m.group(1), int(m.group(2))) if m else (p, None)
-                f = by_path[fn]
+                f = by_path.get(fn)
+                if f is None:
+                    continue        # a location that names no feature of this world (stale list file)
                 if f["id"] != last:
                     self.loaded.append(f["id"])
                     self.loc[f["id"]] = []
